@@ -296,7 +296,14 @@ func ssoAdversarial(r *core.Run, prop string) {
 		if atk.EncNotAssertion {
 			carriedEnc = 0
 		}
+		nestedAssertions := world.AllAssertionElements(atk.XML) - carriedPlain
 		carriedAll := func(resp *types.Response) bool {
+			if !s.Cfg.SkipSig && !resp.SignatureValidated && nestedAssertions > 0 {
+				// an assertion element somewhere below another child of an unsigned Response: never verified
+				ctx["nested_assertion_elements"] = nestedAssertions
+				r.Fail("conservation", prop+"/unsigned-response-accepted-while-carrying-a-nested-assertion", ctx)
+				return false
+			}
 			if s.Cfg.SkipSig || resp.SignatureValidated || len(resp.Assertions) == carriedPlain+carriedEnc {
 				return true
 			}
